@@ -470,6 +470,29 @@ def check_defaults(acc, pendulum):
         exp = list(want) if want else [12 if "PM" in text else 0]
         if got != exp:
             acc.mismatch("from_format", "day-of-year" if want else "meridiem-12", {"kind": "def", "text": text, "fmt": fmt}, got, exp)
+    # a REJECTED default locale leaves the accepted one in force for format() / from_format()
+    x = pendulum.datetime(2016, 8, 28, 7, 3, 6, 123456)
+    for bad in ("tlh", "xx_yy", "e n"):
+        orig = pendulum.get_locale()
+        pendulum.set_locale("en")
+        before = "en"
+        try:
+            pendulum.set_locale(bad)
+            outcome = "accepted"
+        except ValueError:
+            outcome = "ValueError"
+        except Exception as e:  # noqa: BLE001
+            outcome = f"raises {type(e).__name__}"
+        try:
+            got = [outcome, pendulum.get_locale(), x.format("dddd D MMMM YYYY, Do"), pendulum.from_format("Sunday 28 August 2016", "dddd D MMMM YYYY").day]
+        except Exception as e:  # noqa: BLE001
+            got = [outcome, pendulum.get_locale(), f"raises {type(e).__name__}", None]
+        finally:
+            pendulum.set_locale(orig)
+        acc.c["evaluations"] += 1
+        want = ["ValueError", before, "Sunday 28 August 2016, 28th", 28]
+        if got != want:
+            acc.mismatch("format", "default-locale-after-rejected-set_locale", {"kind": "def", "text": bad, "fmt": "set_locale"}, got, want)
     # the public entry point: its 'now' is the current time IN THE REQUESTED ZONE.  The two zones are 26 hours apart, so at
     # any moment at least one of them is on another calendar day than the machine's zone; the clock is read before and
     # after the call and the case only judged when no midnight fell in between (the one place the real clock is consulted)
